@@ -190,7 +190,7 @@ def oracle_shapes(case: dict) -> Outcome:
 
 
 STREAMS = {
-    "laws": Stream("laws", oracle=oracle, strategy=strategy, quick=10000, thorough=250000, shards_quick=16, shards_thorough=16),
-    "laws_large": Stream("laws_large", oracle=oracle, strategy=strategy_large, quick=320, thorough=40000, shards_quick=8, shards_thorough=16),
+    "laws": Stream("laws", oracle=oracle, strategy=strategy, quick=10000, thorough=100000, shards_quick=16, shards_thorough=16),
+    "laws_large": Stream("laws_large", oracle=oracle, strategy=strategy_large, quick=320, thorough=6000, shards_quick=8, shards_thorough=16),
     "shapes": Stream("shapes", oracle=oracle_shapes, strategy=strategy_shapes, quick=1500, thorough=10000, shards_quick=2, shards_thorough=4),
 }
